@@ -1,7 +1,8 @@
 import ZChain.Drv.Util
 import ZChain.Model.Ledger
+import ZChain.Model.Genesis
 /-! Line driver for the engine model (C01–C05).
-`init <feeOn 0|1> <id:bal:nonce>*`
+`init <feeOn 0|1> <id:bal:nonce>*`   |   `genesis <scId>:<tokens>[/<clientId>:<tokens>]* …` (mustInitGBState)
 `txn <send|data|sc|invalid> <sender> <to> <toValid 0|1> <value> <fee> <nonce> <res>`
    res = `-` | `int` | `chg` | `chg|<ops>` | `ok` | `ok|<ops>`; ops separated by `;`:
    `t,src,dst,amt` (transfer; a destination id may carry the suffix `u` = upper-case spelling) `s,src,dst,amt` (signed transfer) `w,k,v` (write) `d,k` (delete)
@@ -12,6 +13,7 @@ open ZChain.Ledger
 structure DS where
   feeOn : Bool
   st : St
+  alive : Bool := true   -- false after a genesis that panicked: there is no chain
 
 def insertSorted (x : Nat × String) : List (Nat × String) → List (Nat × String)
   | [] => [x]
@@ -87,16 +89,48 @@ def parseTyp : String → Option TxnType
 def showStatus : Status → String
   | .rejected => "rejected" | .success => "success" | .failed => "failed"
 
+/-- `<scId>:<tokens>[/<clientId>:<tokens>]*` -/
+def parseGenSC (w : String) : Option GenSC :=
+  match w.splitOn "/" with
+  | [] => none
+  | hd :: cls =>
+    match hd.splitOn ":" with
+    | [i, t] =>
+      match i.toNat?, t.toNat? with
+      | some i, some t =>
+        let cl := cls.foldr (fun c acc => match acc, c.splitOn ":" with
+          | some l, [ci, ct] => (match ci.toNat?, ct.toNat? with
+            | some ci, some ct => some ((ci, ct) :: l)
+            | _, _ => none)
+          | _, _ => none) (some [])
+        cl.map fun l => ⟨i, t, l⟩
+      | _, _ => none
+    | _ => none
+
+def parseGen : List String → Option (List GenSC)
+  | [] => some []
+  | w :: ws => match parseGenSC w, parseGen ws with
+    | some x, some r => some (x :: r)
+    | _, _ => none
+
 def step (d : DS) (ws : List String) : DS × String :=
   match ws with
+  | "genesis" :: cfg =>
+    match parseGen cfg with
+    | none => (d, "bad-op")
+    | some cfg =>
+      match genesis cfg with
+      | none => ({ d with st := ⟨[], []⟩, alive := false }, "panic")
+      | some a => ({ d with st := ⟨a, []⟩, feeOn := true, alive := true }, "ok " ++ showState ⟨a, []⟩)
   | "init" :: fee :: accts =>
     match parseAccts accts with
-    | some a => if fee = "0" ∨ fee = "1" then ({ feeOn := fee = "1", st := ⟨a, []⟩ }, "ok") else (d, "bad-op")
+    | some a => if fee = "0" ∨ fee = "1" then ({ feeOn := fee = "1", st := ⟨a, []⟩, alive := true }, "ok") else (d, "bad-op")
     | none => (d, "bad-op")
   | ["txn", typ, sender, to, tv, value, fee, nonce, res] =>
     match parseTyp typ, sender.toNat?, parseId to, value.toNat?, fee.toNat?, nonce.toInt?, parseRes res with
     | some typ, some sender, some (to, cn), some value, some fee, some nonce, some r =>
       if tv ≠ "0" ∧ tv ≠ "1" then (d, "bad-op") else
+      if !d.alive then (d, "no-chain") else
       let t : Txn := { sender, to, toValid := tv = "1", toCanon := cn, value, fee, nonce, typ }
       let (s', st) := ZChain.Ledger.step d.feeOn d.st t r
       ({ d with st := s' }, showStatus st ++ " " ++ showState s')
